@@ -169,13 +169,21 @@ class RealSem:
     def rounding(self, t, u, exact_when=None):
         """value of a rounded operation whose exact result is t:  t + e  with |e| <= u*|t|
         (linear in t; equivalent to t*(1+d), |d| <= u)."""
+        # IEEE operations are deterministic: the same exact term rounds to the same value, so the error
+        # variable is shared between syntactically identical operations (lets two encodings of the same
+        # computation be recognised as equal without any arithmetic reasoning)
+        key = ("round", t, str(u))
+        if key in self._def_memo:
+            return self._def_memo[key]
         e = self.fresh("Real", "e")
         self.deltas.append(e)
         bound = "(* %s %s)" % (rat(u), self.absx(t))
         self.decls.append("(assert (and (<= (- %s) %s) (<= %s %s)))" % (bound, e, e, bound))
         if exact_when:
             self.decls.append("(assert (=> %s (= %s 0.0)))" % (exact_when, e))
-        return self.define("Real", "(+ %s %s)" % (t, e), "r")
+        r = self.define("Real", "(+ %s %s)" % (t, e), "r")
+        self._def_memo[key] = r
+        return r
 
     def float_arith(self, op, a, b, sort):
         sym = {"Add": "+", "Sub": "-", "Mul": "*", "Div": "/"}[op]
